@@ -33,6 +33,7 @@ LEVEL_TEXT = ("Full-strength theorems over the ticker model, for every wiring, t
               "same tick (any_order_update_after_resolved_sources) - the composition through system boundaries, proved directly on the relation; the "
               "consequence clause (no mixture of this-tick and previous-tick values) is C03's any_order_run_refines_flatRun. The same for FULLY INTERLEAVED executions in which inner ticks of sibling systems overlap at every depth (Core/SimInter, Props/C01NestedInter: interleaved_updates_le, interleaved_update_order, interleaved_update_after_resolved_sources - proved directly on the small-step relation, also when the feeding and the fed device live in different system simulations whose inner ticks overlapped). A device-level monitor through "
               "the resolved wiring checks the same on every real run.")
+LEVEL_ADDENDUM = "Session 8: one generated scenario in four also runs from a configuration FILE through tickit's own loading path (read_configs, InverseWiring.from_component_configs, build_simulation - as one simulation or divided over several that share the bus - and TickitSimulation.run()), with the same acceptor and monitors."
 LEVEL_NOTE = "Trusts: Lean kernel; hand-written ticker model (tied by the acceptor); asyncio task FIFO; the harness wraps Ticker.__init__/__call__/propagate at run time for observation."
 ASSUMPTIONS = ["components answer only when dispatched to (Input or Skip)", "wirings are acyclic for the progress half"]
 
